@@ -6,10 +6,10 @@ default must be bound to the VALUE - and the type - Python itself binds for `def
 
 oracle.sig.defaults   NO Lean.  Default expressions from a grammar (tuples of length 0/1/2, nested containers, unary /
                       binary / boolean operators, comparisons, conditionals, lambdas, subscripts and slices, strings
-                      with quotes and backslashes) x how the parameter is declared (positional, keyword-only after `*`,
-                      after `*args`, body argument of a <%call>) x how the call is made (by name, `self.`, capture in
-                      a concatenation, nested def called with content, `<%self:f>` tag on a buffered def, <%call> with
-                      content, `caller.body(1)` for the body argument).
+                      with quotes and backslashes) x 3 declarations of the parameter (positional, keyword-only after `*`,
+                      after `*args`) x 6 calling routes (by name, `self.`, capture in a concatenation, nested def
+                      called with content, `<%self:f>` tag on a buffered def, <%call> with content), plus one more
+                      shape: the body argument of a <%call>, reached by `caller.body(1)` - 19 shapes in all.
                       Every call leaves the parameter to its default; the def renders `tr(x)` (harness/c05_rt.py:
                       a repr that also names the type of every container and element and calls callables);
                       expected = the same `tr` inside a real Python function with the same signature text.
@@ -31,7 +31,9 @@ RULE_DEFAULTS = (
     "default expressions: %d fixed ones (every container kind with 0/1/2 items, nested one-element tuples, tuples "
     "under every operator kind, conditionals, lambdas with defaults, slices, strings with both quotes and "
     "backslashes) plus random ones from the same grammar to depth 3 (those Python evaluates without an exception); "
-    "each in 4 declarations (positional, keyword-only, after *args, <%call> body argument) x 7 calling routes that leave the parameter to its default; non-trivial = the default "
+    "each in 3 declarations (positional, keyword-only after *, after *args) x 6 calling routes, plus the body "
+    "argument of a <%call> reached by caller.body(1) - 19 shapes, all leaving the parameter to its default; "
+    "non-trivial = the default "
     "is not a bare literal; distinct = distinct (default, declaration, route)")
 
 # the grammar's fixed part: written from Python's expression grammar, not from any particular printer method
